@@ -952,9 +952,22 @@ def run(ctx: Ctx):
     for p, o, lab, _ in units[:200:45]:
         ctx.sample(dict(route=p["route"], kind=p["spec"]["kind"], initialised=sorted(p["spec"].get("init", {})),
                         rows=p["spec"]["rows"], cols=p["spec"]["cols"], props=p["spec"].get("props")))
+    order_violations(ctx)
     (ctx.build / "mismatches.json").write_text(json.dumps([dict(case=p, label=lab) for p, o, lab, _ in mism], indent=1)[:2000000])
     if ctx.broken and not new_violations(ctx):
         search(ctx)
+
+
+def order_violations(ctx: Ctx):
+    """core.finish prints the first five distinct signatures: put one representative of every distinct defect CLASS
+    (clause, container, effect, aspect, input class - whatever the detector type or route) first, so that unrelated
+    defects present at the same time are each reported with a replay."""
+    first, rest, seen = [], [], set()
+    for v in ctx.violations:
+        k = (v.clause, v.sig.get("field"), v.sig.get("effect"), v.sig.get("aspect"), v.sig.get("input_class"))
+        (rest if k in seen else first).append(v)
+        seen.add(k)
+    ctx.violations[:] = first + rest
 
 
 def new_violations(ctx: Ctx):
@@ -983,6 +996,7 @@ def search(ctx: Ctx):
     units, mism, viol = correspondence(ctx, cases, tag="s")
     account(ctx, units)
     process(ctx, units, [], viol)
+    order_violations(ctx)
     ctx.cov.pop("_keys", None)
     ctx.cov["search_cases"] = len(units)
 
